@@ -168,6 +168,9 @@ TARGET_ENVS = [
     {"TARGET": "wasm32-unknown-unknown", "CARGO_CFG_TARGET_ARCH": "wasm32", "CARGO_CFG_TARGET_OS": "unknown", "CARGO_CFG_TARGET_FAMILY": "wasm", "CARGO_CFG_UNIX": None, "CARGO_CFG_TARGET_POINTER_WIDTH": "32"},
     {"TARGET": "x86_64-pc-windows-msvc", "CARGO_CFG_TARGET_OS": "windows", "CARGO_CFG_TARGET_FAMILY": "windows", "CARGO_CFG_WINDOWS": "", "CARGO_CFG_UNIX": None, "CARGO_CFG_TARGET_ENV": "msvc"},
     {"CARGO_PKG_RUST_VERSION": "", "OUT_DIR": None, "CARGO_MANIFEST_DIR": None},
+    # the including crate declares an old rust-version; the build runs on docs.rs / in CI
+    {"CARGO_PKG_RUST_VERSION": "1.70", "DOCS_RS": "1", "CI": "true"},
+    {"CARGO_PKG_RUST_VERSION": "1.56.1", "CARGO_CFG_DOCSRS": "", "GITHUB_ACTIONS": "true", "TMPDIR": "/nonexistent/tmp", "TMP": "/nonexistent/tmp", "TEMP": "/nonexistent/tmp"},
 ]
 
 
